@@ -42,9 +42,9 @@ def load_known():
         for ln in open(KNOWN):
             ln = ln.strip()
             if ln.startswith("finding:"):
-                m = re.match(r"finding:\s+property=(\S+)\s+obligation=(\S+)\s+witness=(.*?)\s+what=(.*)$", ln)
+                m = re.match(r"finding:\s+property=(\S+)\s+obligation=(\S+)\s+(?:sig=(\S+)\s+)?witness=(.*?)\s+what=(.*)$", ln)
                 if m:
-                    finds.append({"property": m.group(1), "obligation": m.group(2), "witness": m.group(3), "what": m.group(4)})
+                    finds.append({"property": m.group(1), "obligation": m.group(2), "sig": m.group(3), "witness": m.group(4), "what": m.group(5)})
     return finds
 
 
@@ -163,13 +163,19 @@ def decide(prop, results, infos, baseline, known, tier):
         elif r.status == "bounded-verified":
             bounded.append(r)
         elif r.status == "false":
-            kf = [k for k in known if k["obligation"] == r.ob]
+            # a finding is identified by obligation AND (where the engine gives one) the signature of
+            # what fails, so that a different violation of the same obligation is still reported
+            kf = [k for k in known if k["obligation"] == r.ob and (k.get("sig") is None or k["sig"] == r.meta.get("sig"))]
             if kf:
                 known_hits.append((r, kf[0]))
                 continue
             unit = r.meta.get("unit")
             was = bl_ob.get(r.ob, {}).get("status")
-            if was not in ("verified", "bounded-verified"):
+            if r.engine == "T" and any(k.startswith("engine_t/") for k in bl_ob):
+                # engine T's pristine verdict for a function that is not listed is "not on any call
+                # cycle": a new guard-free cycle is a violation even though the id is new
+                violations.append(r)
+            elif was not in ("verified", "bounded-verified"):
                 r.detail = "not recorded as discharged on the pristine tree; " + r.detail
                 undecided.append(r)
             elif r.engine == "V" and unit in bl_units and bl_units[unit] == unit_hash.get(unit):
